@@ -12,7 +12,7 @@ CONSTANTS
   Dev_SizeHint = FALSE
   Dev_RsrcRecursion = FALSE
   Dev_FirstDepth = TRUE
-  Dev_KidsDepth = TRUE
+  Dev_KidsDepth = FALSE
   FirstWalkIterative = FALSE
   StackFrames = 1000
   StackFramesMax = 65536
